@@ -24,7 +24,7 @@ PROPS = {
         "gen": ["EffectOrder", "SeqAccounting"],
     },
     "C02": {
-        "level_text": "Lean 4 theorems: (byte level) every append leaves the previous file content as an exact prefix and adds only whole newline-terminated frames — the lines of the new log are the old lines followed by exactly the appended frames; (static, regenerated on every run by the translator ripx) the truth file is only ever opened create+append and impl EventLog contains no truncating/seeking/renaming call; EventLog::append is lock / body / newline / flush / unlock; in the call graph of impl ContinuityStore none of the read-only capabilities (replay, cut points, compaction status, cursor status, selection status, list, get, subscribe, the compile-input loaders) can reach a function that appends to the event log, and no cache-layer file mentions the event log — decided by a reachability computation over the regenerated graph, for every argument value at once; (planner model of C09) auto and auto-schedule with nothing to do or as a dry run append nothing for every thread and parameter. Tied by an implementation oracle on bytes: operation histories over the store API and the HTTP router (valid, invalid, unknown-thread arguments, thread ids that as file names spell the store's own files; cache deletion; reopen; backlogs of cut points drained one checkpoint per call), whether a call is a no-op being decided from the log as it was before the call, after every call the previous bytes (length + SHA-256) are a prefix, the suffix splits into JSON frames, read-only and no-op calls add nothing.",
+        "level_text": "Lean 4 theorems: (byte level) every append leaves the previous file content as an exact prefix and adds only whole newline-terminated frames — the lines of the new log are the old lines followed by exactly the appended frames; (static, regenerated on every run by the translator ripx) the truth file is only ever opened create+append and impl EventLog contains no truncating/seeking/renaming call; EventLog::append is lock / body / newline / flush / unlock; in the call graph of impl ContinuityStore none of the read-only capabilities (replay, cut points, compaction status, cursor status, selection status, list, get, subscribe, the compile-input loaders) can reach a function that appends to the event log, and no cache-layer file mentions the event log — decided by a reachability computation over the regenerated graph, for every argument value at once; (planner model of C09) auto and auto-schedule with nothing to do or as a dry run append nothing for every thread and parameter. Tied by an implementation oracle on bytes: operation histories over the store API and the HTTP router (valid, invalid, unknown-thread arguments, thread ids that as file names spell the store's own files; cache deletion; reopen; backlogs of cut points drained one checkpoint per call), whether a call is a no-op being decided from the log as it was before the call, after every call the previous bytes (length + SHA-256) are a prefix, the suffix splits into JSON frames, read-only and no-op calls add nothing. Histories also reopen the store over a last frame that is whole but unterminated (what a death between body and newline leaves): the bytes that are there stay a prefix.",
         "level_note": "Lean kernel; ripx is trusted to see every method call on self and every event_log.append in impl ContinuityStore (closures and nested blocks included; calls through trait objects or macros would be missed; none exist today); the OS honours O_APPEND; serde_json never emits a raw newline inside a frame (checked by the oracle on every appended line).",
         "technique": "Lean 4 proof (list lemmas on bytes; decide over regenerated call graph / open flags; planner model) + byte-level implementation oracle over operation histories",
         "design_ref": "§5 C02",
@@ -70,7 +70,7 @@ PROPS = {
         "gen": ["TailLoops", "SeekUse"],
     },
     "C05": {
-        "level_text": "Lean 4 theorems over an executable model of a thread's on-disk state (truth log lines, a body written without its newline, the full sidecar, the messages+runs sidecar) while frames are appended effect by effect, a process death after any number of effects, reopening the log, and the first write after the restart: for EVERY history of acknowledged appends, EVERY further append (small or larger than the writer's buffer, message or not), EVERY crash point and EVERY number of further appends the log replays and is numbered 0,1,2,… without gap or duplicate, every acknowledged append is still where it was, the interrupted append is there at most once, and from the first further append on the thread's sidecar equals the log; a crashed disk always extends the disk before it. The statement is proved FALSE without each of the two repairs (duplicate seq from the sidecar's tail; unparseable merged line after a large frame) — regression witnesses. What the restarted authority's caches look like is characterised exactly: until the thread is written again its sidecar is a prefix at most one frame behind; the messages+runs sidecar is correct unless the crash fell between the sidecar line and the messages+runs line of a message frame, in which case exactly that frame is missing for ever (the two gaps are recorded known findings). EventLog::append's body / newline / flush order under its mutex is re-proved on the regenerated effect order. Tied on every run by crash points on the real code: a callback on the named points (cfg rip_verif) between the file-system effects of the log, the seven cache files, index.json and artifact writes copies the on-disk state; (a) plain histories: the raw state at every point, and the state after restart plus three appends, must equal the model's partialAppend / story; (b) mixed workloads (messages incl. frames larger than the writer buffer, runs, cursor updates, manual and automatic checkpoints with artifacts, branch, handoff, context compile) reopened at every point: validated replay, numbering, acknowledged bytes a prefix, further appends on every thread, and the C04 comparison (caches as found vs removed) before and after them. Two defects found and repaired.",
+        "level_text": "Lean 4 theorems over an executable model of a thread's on-disk state (truth log lines, a body written without its newline, the full sidecar, the messages+runs sidecar) while frames are appended effect by effect, a process death after any number of effects, reopening the log, and the first write after the restart: for EVERY history of acknowledged appends, EVERY further append (small or larger than the writer's buffer, message or not), EVERY crash point and EVERY number of further appends the log replays and is numbered 0,1,2,… without gap or duplicate, every acknowledged append is still where it was, the interrupted append is there at most once, and from the first further append on the thread's sidecar equals the log; a crashed disk always extends the disk before it. The statement is proved FALSE without each of the two repairs (duplicate seq from the sidecar's tail; unparseable merged line after a large frame) — regression witnesses. What the restarted authority's caches look like is characterised exactly: until the thread is written again its sidecar is a prefix at most one frame behind; the messages+runs sidecar is correct unless the crash fell between the sidecar line and the messages+runs line of a message frame, in which case exactly that frame is missing for ever (the two gaps are recorded known findings). EventLog::append's body / newline / flush order under its mutex is re-proved on the regenerated effect order. Tied on every run by crash points on the real code: a callback on the named points (cfg rip_verif) between the file-system effects of the log, the seven cache files, index.json and artifact writes copies the on-disk state; (a) plain histories: the raw state at every point, and the state after restart plus three appends, must equal the model's partialAppend / story; (b) mixed workloads (messages incl. frames larger than the writer buffer, runs, cursor updates, manual and automatic checkpoints with artifacts, branch, handoff, context compile) reopened at every point: validated replay, numbering, acknowledged bytes a prefix, further appends on every thread, and the C04 comparison (caches as found vs removed) before and after them. Two defects found and repaired. Plain histories contain run ends as well as messages (both kinds of frame of the messages+runs sidecar); the recovered messages+runs sidecar is also looked at directly: below its last seq it has no hole, except at the crash points of the recorded finding.",
         "level_note": "Lean kernel; crash = process death between system calls (tearing inside one write, and power loss reordering writes, are outside the model); the model has one thread and two of the seven cache files (the others follow the same two patterns and are covered by the crash-point run); artifacts, index.json and snapshots are covered by the crash-point run only (temp-file + rename).",
         "technique": "Lean 4 proof (case analysis over crash points, induction over histories and further appends; decide-checked counterexamples for the unrepaired code) + decide over the regenerated log-append order + crash-point snapshots on the real code with disk-state correspondence and recovery oracles",
         "design_ref": "§5 C05",
@@ -85,7 +85,7 @@ PROPS = {
         "gen": ["EffectOrder"],
     },
     "C06": {
-        "level_text": "Lean 4 theorems over a two-actor transition system (producer emitting n frames with a micro-program over lock / publish / record / unlock; subscriber doing subscribe, then snapshot under the same lock, then history ++ live filtered by seq): for each join-safe emit order, every n and EVERY interleaving, the subscriber delivers 0..n-1 exactly once in order; the producer is independent of subscribers; the snapshot is never blocked forever. The emit orders and handler orders are REGENERATED from the current source by the translator ripx on every run, and the obligations 'the session emitter / task emitter / every continuity append has a join-safe shape' and 'every handler subscribes before its snapshot' are re-proved by decide on the regenerated tables. Tied further by controlled-schedule correspondence: the real emitters and the real GET .../events handlers are single-stepped through yield points (cfg rip_verif) for every (subscribe, snapshot) position on short streams and random schedules on longer ones, all three stream kinds; delivered seqs must equal the model's and the observed point trace must match the generated order. A subscriber lagging more than the channel capacity loses frames: recorded known finding. A second LTS (Rip.Model.Rebuild) covers readers that fall back from an unreadable sidecar to the log and rewrite the sidecar while appenders append: with the rewrite under the seq lock no broadcast frame is ever missing from a readable sidecar, for every number of processes and every schedule (the witness for the code as it was is replayed on the real store each run); its tie is the regenerated order of replay_events / its helper, the regenerated list of functions that call rebuild_best_effort, and the scheduled reader-rebuild race on the real store.",
+        "level_text": "Lean 4 theorems over a two-actor transition system (producer emitting n frames with a micro-program over lock / publish / record / unlock; subscriber doing subscribe, then snapshot under the same lock, then history ++ live filtered by seq): for each join-safe emit order, every n and EVERY interleaving, the subscriber delivers 0..n-1 exactly once in order; the producer is independent of subscribers; the snapshot is never blocked forever. The emit orders and handler orders are REGENERATED from the current source by the translator ripx on every run, and the obligations 'the session emitter / task emitter / every continuity append has a join-safe shape' and 'every handler subscribes before its snapshot' are re-proved by decide on the regenerated tables. Tied further by controlled-schedule correspondence: the real emitters and the real GET .../events handlers are single-stepped through yield points (cfg rip_verif) for every (subscribe, snapshot) position on short streams and random schedules on longer ones, all three stream kinds; delivered seqs must equal the model's and the observed point trace must match the generated order. A subscriber lagging more than the channel capacity loses frames: recorded known finding. A second LTS (Rip.Model.Rebuild) covers readers that fall back from an unreadable sidecar to the log and rewrite the sidecar while appenders append: with the rewrite under the seq lock no broadcast frame is ever missing from a readable sidecar, for every number of processes and every schedule (the witness for the code as it was is replayed on the real store each run); its tie is the regenerated order of replay_events / its helper, the regenerated list of functions that call rebuild_best_effort, and the scheduled reader-rebuild race on the real store. A subscriber of one thread is also watched while a neighbour thread of the same store (same broadcast channel, its own seq space) appends frames with higher seqs.",
         "level_note": "Lean kernel; tokio broadcast (FIFO delivery to receivers subscribed at send time) and tokio Mutex are modelled, not verified; the model's channel is unbounded (capacity is the known finding); ripx is trusted to report the order of the effect calls it recognises (cross-checked dynamically against the yield-point trace on every run).",
         "technique": "Lean 4 proof (inductive invariant over all interleavings) + decide over regenerated effect-order tables + controlled-schedule correspondence",
         "design_ref": "§5 C06",
@@ -131,7 +131,7 @@ PROPS = {
         "gen": [],
     },
     "C09": {
-        "level_text": "Lean 4 theorems over an executable model of cut points, planning, the auto job and the scheduler decision as functions of the thread's truth frames: cut points are exactly the k*stride-th messages (seq and id of that message), the latest multiples first, at most clamp(limit,1,32); a cut point is checkpointed exactly when a checkpoint frame for that seq exists, the latest by stream order winning; non-message frames do not move cut points; the plan is the unchecked cut points among the latest 32, capped; an auto run creates precisely the planned checkpoints in sorted order between exactly one job-spawned and one job-ended frame, continuing the numbering; with nothing to do or as a dry run it appends nothing; after a run every planned cut is checkpointed; scheduler: silent on noop/dry run, one decision frame when a job is in flight, job-spawned then decision otherwise. Tied to the code by differential correspondence: random histories (messages interleaved with other frames, manual checkpoints on and off boundaries, jobs left in flight) x operation sequences with stride / limit / max_new in {None,0,1,2,3,7,32,33,10000} and all boolean flags, responses (message count, every cut point field, planned list, decision/status) and the kinds/seqs/to_seq of appended frames compared with the compiled model; plus model-free oracles: a cut point is reported checkpointed exactly when a checkpoint frame for that seq exists (latest wins); with every cut point checkpointed a repeated run appends nothing; summaries readable with matching coverage (also for a summary handed in to a manual checkpoint); a summarizer job that fails midway (unwritable artifact store) is bracketed by one spawned and one ended frame and no checkpoint references a summary that was never stored; manual checkpoints only on message boundaries; the same job on two byte-copies of a store writes the same summary text.",
+        "level_text": "Lean 4 theorems over an executable model of cut points, planning, the auto job and the scheduler decision as functions of the thread's truth frames: cut points are exactly the k*stride-th messages (seq and id of that message), the latest multiples first, at most clamp(limit,1,32); a cut point is checkpointed exactly when a checkpoint frame for that seq exists, the latest by stream order winning; non-message frames do not move cut points; the plan is the unchecked cut points among the latest 32, capped; an auto run creates precisely the planned checkpoints in sorted order between exactly one job-spawned and one job-ended frame, continuing the numbering; with nothing to do or as a dry run it appends nothing; after a run every planned cut is checkpointed; scheduler: silent on noop/dry run, one decision frame when a job is in flight, job-spawned then decision otherwise. Tied to the code by differential correspondence: random histories (messages interleaved with other frames, manual checkpoints on and off boundaries, jobs left in flight) x operation sequences with stride / limit / max_new in {None,0,1,2,3,7,32,33,10000} and all boolean flags, responses (message count, every cut point field, planned list, decision/status) and the kinds/seqs/to_seq of appended frames compared with the compiled model; plus model-free oracles: a cut point is reported checkpointed exactly when a checkpoint frame for that seq exists (latest wins); with every cut point checkpointed a repeated run appends nothing; summaries readable with matching coverage (also for a summary handed in to a manual checkpoint); a summarizer job that fails midway (unwritable artifact store) is bracketed by one spawned and one ended frame and no checkpoint references a summary that was never stored; manual checkpoints only on message boundaries; the same job on two byte-copies of a store writes the same summary text. auto_schedule is judged like auto: with every cut point of the stride checkpointed (decided from the log before the call) nothing is appended, whatever unfinished job the thread holds.",
         "level_note": "Lean kernel; the summary renderer is treated as a deterministic function and checked by the two-copies oracle (artifact ids minted during a run are canonicalised by position); the in-flight scan is modelled over the whole thread (the code scans a 512-frame tail; histories stay below it); cache fast paths inside cut_points are the subject of C04.",
         "technique": "Lean 4 proof (arithmetic on ordinals, fold invariants, sort/permutation lemmas) + differential correspondence check",
         "design_ref": "§5 C09",
@@ -251,7 +251,7 @@ PROPS = {
         "gen": ["EffectOrder", "Consts", "LockTable"],
     },
     "C17": {
-        "level_text": "Lean 4 theorems over executable models of (a) the task log writer, the shell tool's capture_stream, and page reads: stored log = prefix of the output up to the cap for every chunking and cap; ranges consecutive and tiling; each range names its chunk; shell preview and spill artifact are prefixes within their limits and the artifact exists whenever needed; any page walk reassembles the stored bytes; and (b) a labelled transition system of one task (main task, stdout pump, stderr pump, client cancellation at any moment, atomic emits): under EVERY schedule the recorded stream is a well-formed lifecycle prefix, complete once the task finished, with nothing after the terminal status and all output before it. Tied to the code by correspondence: scripted chunk sequences through the real TaskLogWriter / read_artifact_range / capture_stream / truncate_utf8 (exported under cfg rip_verif) vs the compiled model; real background tasks through the HTTP router (interleaved stdout/stderr, split multi-byte, binary, 40 KB, exit codes, cancel at a random moment, invalid args, bad cwd, preview 0/2, cap 5) whose recorded frames must be accepted by the Lean lifecycle automaton and whose frame ranges / page walks / artifact hashes are checked by oracles.",
+        "level_text": "Lean 4 theorems over executable models of (a) the task log writer, the shell tool's capture_stream, and page reads: stored log = prefix of the output up to the cap for every chunking and cap; ranges consecutive and tiling; each range names its chunk; shell preview and spill artifact are prefixes within their limits and the artifact exists whenever needed; any page walk reassembles the stored bytes; and (b) a labelled transition system of one task (main task, stdout pump, stderr pump, client cancellation at any moment, atomic emits): under EVERY schedule the recorded stream is a well-formed lifecycle prefix, complete once the task finished, with nothing after the terminal status and all output before it. Tied to the code by correspondence: scripted chunk sequences through the real TaskLogWriter / read_artifact_range / capture_stream / truncate_utf8 (exported under cfg rip_verif) vs the compiled model; real background tasks through the HTTP router (interleaved stdout/stderr, split multi-byte, binary, 40 KB, exit codes, cancel at a random moment, invalid args, bad cwd, preview 0/2, cap 5) whose recorded frames must be accepted by the Lean lifecycle automaton and whose frame ranges / page walks / artifact hashes are checked by oracles. One task per run is left uncancelled while a descendant that inherited its pipes writes seconds after the shell has exited; the log is read again well after the terminal status.",
         "level_note": "Lean kernel; SHA-256 not modelled (hash recomputed by the harness); lossy UTF-8 decoding of page/preview text is applied by Rust on both sides; OS pipe chunking is whatever the kernel delivers (the theorems hold for every chunking); PTY tasks share the emitter and lifecycle shape but are not run here (no PTY in the sandbox).",
         "technique": "Lean 4 proof (fold invariants over all chunkings; inductive invariant over all interleavings) + differential correspondence check + oracles on real tasks",
         "design_ref": "§5 C17",
@@ -266,8 +266,8 @@ PROPS = {
         "gen": [],
     },
     "C18": {
-        "level_text": "Lean 4 theorems over a labelled transition system of the authority lock protocol (one transition = one file-system call of try_acquire / stale cleanup / corrupt cleanup / Drop, any number of contenders, crashes and releases at any point, every leftover state of a crashed authority): the full mutual-exclusion statement is proved FALSE of the protocol as implemented (witness schedule, by decide) — the cleanup functions re-read/check lock.json and rename it in two separate calls — and proved TRUE under every schedule when those two calls are one step (mutex_partial, never_steals_partial, recovery removes only files of dead processes); recovery from every leftover state is proved for the protocol as implemented. Tied to the code by schedule correspondence: real contender threads running the real functions are single-stepped through yield points (cfg rip_verif) between the file-system calls, and after every step lock/meta state, each contender's position and the number of authorities must equal the Lean LTS's; the witness schedule is replayed on the real functions on every run. The two-authorities executions are a recorded known finding (signatures name the window), not repaired.",
-        "level_note": "Lean kernel; process liveness kill(pid,0) is an oracle of the model (pid reuse excluded); contenders are threads of one process in the correspondence run (crash transitions exist only in the model); the 1 s grace period before corrupt-lock cleanup is modelled as 'the creator is not about to finish writing'; the HTTP ping of the recovery loops is not modelled (endpoint unreachable).",
+        "level_text": "Lean 4 theorems over a labelled transition system of the authority lock protocol (one transition = one file-system call of try_acquire / stale cleanup / corrupt cleanup / Drop, any number of contenders, crashes and releases at any point, every leftover state of a crashed authority): the full mutual-exclusion statement is proved FALSE of the protocol as implemented (witness schedule, by decide) — the cleanup functions re-read/check lock.json and rename it in two separate calls — and proved TRUE under every schedule when those two calls are one step (mutex_partial, never_steals_partial, recovery removes only files of dead processes); recovery from every leftover state is proved for the protocol as implemented. Tied to the code by schedule correspondence: real contender threads running the real functions are single-stepped through yield points (cfg rip_verif) between the file-system calls, and after every step lock/meta state, each contender's position and the number of authorities must equal the Lean LTS's; the witness schedule is replayed on the real functions on every run. The two-authorities executions are a recorded known finding (signatures name the window), not repaired. Step-level theorems for the endpoint file: the meta step of the stale cleanup keeps a meta.json that carries any other pid than the one the cleanup was entered for, and no other cleanup step touches meta.json; the guard `meta.pid == expected_pid` around every rename / removal of meta_path is re-decided on the regenerated source. A three-party scenario on the real functions (recoverer parked at each yield point of the cleanup while a newcomer becomes the authority and publishes its endpoint) checks that a live authority keeps its lock.json and meta.json.",
+        "level_note": "Lean kernel; process liveness kill(pid,0) is an oracle of the model (pid reuse excluded); contenders are threads of one process in the correspondence run (crash transitions exist only in the model); the 1 s grace period before corrupt-lock cleanup is modelled as 'the creator is not about to finish writing'; the HTTP ping of the recovery loops is not modelled (endpoint unreachable); the LTS has no step for a holder PUBLISHING its endpoint file, so what happens to a live authority's meta.json is carried by step-level theorems, a regenerated guard obligation and a scripted three-party scenario, not by the schedule correspondence.",
         "technique": "Lean 4 proof (inductive invariant over all interleavings; decide-checked counterexample for the full statement) + controlled-schedule correspondence on the real functions",
         "design_ref": "§5 C18",
         "trusted_base": COMMON_TB + [
